@@ -238,8 +238,8 @@ def build(tier="quick", seed=0):
                 ns[w] = it.call(base.g["fieldtype"], [w], {})
         return it.eval(ast.parse(expr, mode="eval").body, ns, sel)
 
-    def expr_obligation(expr):
-        name = f"C07.expr[{expr}]"
+    def expr_obligation(expr, may_refuse=False):
+        name = f"C07.expr[{expr}]" + (" (refusal allowed)" if may_refuse else "")
 
         def th():
             rec = mkrec()
@@ -260,6 +260,9 @@ def build(tier="quick", seed=0):
             i, c, s = p.value
             if s[0] == "raise":
                 return True  # a sub-expression is undefined on this path: outside the property's precondition
+            if may_refuse and i == ("raise", "InvalidOperation") and c[0] == "val":
+                # the interpreted engine may REFUSE an expression it does not support; what it must not do is answer differently from Python
+                return truthterm(c[1]) == truthterm(s[1]), f"{expr!r}: compiled {c[1]!r}, Python {s[1]!r}"
             if i[0] == "raise" or c[0] == "raise":
                 return False, f"{expr!r}: interpreted {i}, compiled {c}, Python {s}"
             return z3.And(truthterm(i[1]) == truthterm(s[1]), truthterm(c[1]) == truthterm(s[1])), f"{expr!r}: interpreted {i[1]!r}, compiled {c[1]!r}, Python {s[1]!r}"
@@ -271,6 +274,10 @@ def build(tier="quick", seed=0):
 
     for e in EXPRESSIONS:
         pack.add(expr_obligation(e))
+    # generator expressions that re-use a loop variable name: refusing them is allowed (the interpreted engine has one flat namespace), a wrong answer is not
+    for e in ["any(any(x == 'b' for x in r.sl) and x == 'a' for x in r.sl)", "any(x == 'a' for x in r.sl) and any(x == 'b' for x in r.sl)", "all(any(x == y for x in r.sl) for y in r.sl) and any(y == 'a' for y in r.sl)",
+              "any(x == 'b' for x in r.sl for x in r.sl)"]:
+        pack.add(expr_obligation(e, may_refuse=True))
 
     # outside the language: rejected with an error, never evaluated to a value (interpreted engine)
     for e in REJECTED:
